@@ -44,6 +44,10 @@ func phrase(rng *rand.Rand, min, max int) string {
 }
 
 func field(rng *rand.Rand) string { // non-empty, tab-free, trimmed, not starting with '#'
+	if rng.Intn(16) == 0 {
+		// words that begin header lines in other dialects of these formats: plain names here
+		return []string{"track", "track1", "browser", "browserX", "trackDb", "chr", "gff-version"}[rng.Intn(7)]
+	}
 	for {
 		s := phrase(rng, 1, 6)
 		if s[0] != '#' {
